@@ -32,9 +32,10 @@ func init() {
 	hx.Register(&hx.Prop{
 		ID: "C07",
 		Rule: "exhaustive blocks: (1) 11 operation-level × 10 document-level security shapes (absent / [] / [{}] / one or several requirements, scopes, the same scheme under two requirements with different scopes, an undeclared scheme, optional authentication) × all 32 verdict vectors of the callback over the (scheme, scopes) pairs in use × fail-first/multi, and each shape pair without callback; " +
-			"(2) 15 parameter layouts (nil / empty / non-empty operation list, override, same name in another location, duplicates inside a list, a parameter after an overridden one, absent required / optional, `$ref` parameters) × all 8 option sets × 7 body shapes (none, valid, invalid, missing required, absent optional, undeclared media type) × passing/failing security; " +
+			"(2) 15 parameter layouts (nil / empty / non-empty operation list, override, same name in another location, duplicates inside a list, a parameter after an overridden one, absent required / optional, `$ref` parameters) × all 8 option sets (the six Options fields the orchestration does not read rotating through their 64 combinations) × 7 body shapes (none, valid, invalid, missing required, absent optional, undeclared media type) × passing/failing security, every other case with request parts no parameter looks up (another header, another cookie, a second cookie of a name already sent with an invalid value); " +
 			"(3) every combination of request constructor (http.NewRequest, httptest.NewRequest) × route source (hand-built, gorillamux, legacy) × document source (Go values, marshalled and loaded) × callback reads the body or not × nil Options on a set of representative operations; the combinations also rotate through blocks 1 and 2; " +
-			"(4) a seeded random stream over all of these dimensions with up to 4+4 parameters and 3 requirements. " +
+			"(4) a seeded random stream over all of these dimensions with up to 4+4 parameters and 3 requirements, a quarter of the cases followed by a history of 1-3 further calls; " +
+			"(5) histories of 5-6 calls for one operation and the same request facts: 15 parameter layouts × 7 body shapes and 11 × 10 security shape pairs, the later calls reusing {the same RequestValidationInput, a new input around the same *http.Request, a new request against the same document / route / router} with Options {a new struct, the old struct rewritten in place, nil}, flags flipped, the callback's verdicts changed or the callback removed: and 15 layouts × 8 option sets alternating between the operation and a sibling operation of the same path item (no parameters of its own: every path-level parameter is in effect for it); every call is compared with the model's and the specification's entry for it. " +
 			"A case is non-trivial when the model reports at least one non-default branch.",
 		Exhaustive: true,
 		Gen:        genC07,
@@ -148,6 +149,16 @@ func c07Doc(c hx.Case) *c07built {
 		return &openapi3.ParameterRef{Value: p}
 	}
 	pi := &openapi3.PathItem{Post: op}
+	for _, st := range jlist(c["history"]) {
+		if sm, _ := st.(map[string]any); jstr(sm, "reuse") == "sibling" && pi.Get == nil {
+			// the sibling operation of the same path item: same security, no parameters and no body of its own
+			pi.Get = &openapi3.Operation{Responses: openapi3.NewResponses()}
+			if c["opSecurity"] != nil {
+				s := c07Reqs(c["opSecurity"])
+				pi.Get.Security = &s
+			}
+		}
+	}
 	for _, pm := range jlist(c["pathParams"]) {
 		pi.Parameters = append(pi.Parameters, mk(pm.(map[string]any)))
 	}
@@ -241,6 +252,15 @@ func c07Request(c hx.Case, b *c07built, ctor string) *http.Request {
 	for _, ck := range cookies {
 		req.AddCookie(&http.Cookie{Name: ck, Value: "5"})
 	}
+	if jbool(c, "noise") {
+		// parts of the request no parameter looks up: another header, another cookie, and behind every cookie sent a
+		// second one of the same name with a value above both maxima (req.Cookie returns the first)
+		req.Header.Set("x-other", "1")
+		req.AddCookie(&http.Cookie{Name: "zz", Value: "1"})
+		for _, ck := range cookies {
+			req.AddCookie(&http.Cookie{Name: ck, Value: "99"})
+		}
+	}
 	return req
 }
 
@@ -261,31 +281,100 @@ func runC07(c hx.Case) any {
 		}
 	}
 	req := c07Request(c, b, jstr(build, "req"))
-	route := &routers.Route{Spec: b.doc, Path: b.path, PathItem: b.pathItem, Method: "POST", Operation: b.op}
-	pathParams := b.pathValues
-	routeUsed := "direct"
+	// the routers are built once and answer every request of the history
+	var gorillaR, legacyR routers.Router
 	switch jstr(build, "route") {
 	case "gorilla":
 		r, err := gorillamux.NewRouter(b.doc)
 		if err != nil {
 			return map[string]any{"routeError": "gorillamux.NewRouter: " + err.Error()}
 		}
-		rt, pp, err := r.FindRoute(req)
-		if err != nil {
-			return map[string]any{"routeError": "gorillamux FindRoute: " + err.Error()}
-		}
-		route, pathParams, routeUsed = rt, pp, "gorilla"
+		gorillaR = r
 	case "legacy":
 		// the legacy router validates the document first: documents it refuses (duplicate parameters, a scheme
 		// reference without value) are routed by hand
 		if r, err := legacy.NewRouter(b.doc); err == nil {
-			rt, pp, err := r.FindRoute(req)
-			if err != nil {
-				return map[string]any{"routeError": "legacy FindRoute: " + err.Error()}
-			}
-			route, pathParams, routeUsed = rt, pp, "legacy"
+			legacyR = r
 		}
 	}
+	handRoute := &routers.Route{Spec: b.doc, Path: b.path, PathItem: b.pathItem, Method: "POST", Operation: b.op}
+	find := func(req *http.Request) (*routers.Route, map[string]string, string, map[string]any) {
+		if req.Method == "GET" && gorillaR == nil && legacyR == nil {
+			return &routers.Route{Spec: b.doc, Path: b.path, PathItem: b.pathItem, Method: "GET", Operation: b.pathItem.Get}, b.pathValues, "direct", nil
+		}
+		switch {
+		case gorillaR != nil:
+			rt, pp, err := gorillaR.FindRoute(req)
+			if err != nil {
+				return nil, nil, "", map[string]any{"routeError": "gorillamux FindRoute: " + err.Error()}
+			}
+			return rt, pp, "gorilla", nil
+		case legacyR != nil:
+			rt, pp, err := legacyR.FindRoute(req)
+			if err != nil {
+				return nil, nil, "", map[string]any{"routeError": "legacy FindRoute: " + err.Error()}
+			}
+			return rt, pp, "legacy", nil
+		}
+		return handRoute, b.pathValues, "direct", nil
+	}
+	route, pathParams, routeUsed, bad := find(req)
+	if bad != nil {
+		return bad
+	}
+	in := &openapi3filter.RequestValidationInput{Request: req, PathParams: pathParams, Route: route}
+	obs := c07Call(c, in, b.doc, "new")
+	// the history: further calls on the same input, on a new input around the same request, or with a new request
+	// against the same document / route / router; every entry overrides the option fields of the case
+	hist := []any{}
+	for _, st := range jlist(c["history"]) {
+		sm, _ := st.(map[string]any)
+		sc := cloneCase(c)
+		for k, v := range sm {
+			if k != "reuse" && k != "optsHow" {
+				sc[k] = v
+			}
+		}
+		switch jstr(sm, "reuse") {
+		case "request":
+			in = &openapi3filter.RequestValidationInput{Request: in.Request, PathParams: in.PathParams, Route: in.Route,
+				Options: in.Options, QueryParams: in.QueryParams}
+		case "sibling":
+			// a request for the other operation of the same path item: same URL, query, headers and cookies, GET, no body
+			req2 := c07Request(c, b, jstr(build, "req"))
+			req2.Method, req2.Body, req2.GetBody, req2.ContentLength = "GET", http.NoBody, nil, 0
+			req2.Header.Del("Content-Type")
+			rt, pp, _, bad := find(req2)
+			if bad != nil {
+				return bad
+			}
+			if rt.Operation == nil || rt.Operation != b.pathItem.Get {
+				return map[string]any{"routeError": "the sibling operation was not routed to"}
+			}
+			// (the input of the case's own operation stays the one later "input" / "request" steps reuse)
+			sin := &openapi3filter.RequestValidationInput{Request: req2, PathParams: pp, Route: rt, Options: in.Options}
+			hist = append(hist, c07Call(sc, sin, b.doc, jstr(sm, "optsHow")))
+			in.Options = sin.Options
+			continue
+		case "doc":
+			req2 := c07Request(c, b, jstr(build, "req"))
+			rt, pp, _, bad := find(req2)
+			if bad != nil {
+				return bad
+			}
+			in = &openapi3filter.RequestValidationInput{Request: req2, PathParams: pp, Route: rt, Options: in.Options}
+		}
+		hist = append(hist, c07Call(sc, in, b.doc, jstr(sm, "optsHow")))
+	}
+	obs["hist"] = hist
+	obs["route"], obs["doc"] = routeUsed, docUsed
+	obs["kind"] = fmt.Sprint(obs["kind"]) + "/doc:" + docUsed + "/route:" + routeUsed
+	return obs
+}
+
+// c07Call sets the Options of the input as the (step) case says — nil, a new struct, or the fields of the struct
+// already there — and calls the real ValidateRequest once.
+func c07Call(c hx.Case, in *openapi3filter.RequestValidationInput, doc *openapi3.T, optsHow string) map[string]any {
 	accepted := map[string]bool{}
 	for _, n := range jlist(c["accepted"]) {
 		accepted[n.(string)] = true
@@ -293,16 +382,34 @@ func runC07(c hx.Case) any {
 	var mu sync.Mutex
 	authLog := []string{}
 	readsBody := jbool(c, "authReadsBody")
-	opts := &openapi3filter.Options{
-		ExcludeRequestBody:        jbool(c, "excludeBody"),
-		ExcludeRequestQueryParams: jbool(c, "excludeQuery"),
-		MultiError:                jbool(c, "multi"),
+	opts := &openapi3filter.Options{}
+	if optsHow == "mutate" && in.Options != nil {
+		opts = in.Options
 	}
+	opts.ExcludeRequestBody = jbool(c, "excludeBody")
+	opts.ExcludeRequestQueryParams = jbool(c, "excludeQuery")
+	opts.MultiError = jbool(c, "multi")
+	// the fields of Options the orchestration must not look at
+	other := map[string]bool{}
+	for _, n := range toStrs(c["otherOpts"]) {
+		other[n] = true
+	}
+	opts.ExcludeResponseBody = other["ExcludeResponseBody"]
+	opts.ExcludeReadOnlyValidations = other["ExcludeReadOnlyValidations"]
+	opts.ExcludeWriteOnlyValidations = other["ExcludeWriteOnlyValidations"]
+	opts.IncludeResponseStatus = other["IncludeResponseStatus"]
+	opts.SkipSettingDefaults = other["SkipSettingDefaults"]
+	if other["CustomSchemaErrorFunc"] {
+		opts.WithCustomSchemaErrorFunc(func(err *openapi3.SchemaError) string { return "custom" })
+	} else {
+		opts.WithCustomSchemaErrorFunc(nil)
+	}
+	opts.AuthenticationFunc = nil
 	if !jbool(c, "authNil") {
 		opts.AuthenticationFunc = func(ctx context.Context, ai *openapi3filter.AuthenticationInput) error {
 			key := c07Key(ai.SecuritySchemeName, ai.Scopes)
 			var want *openapi3.SecurityScheme
-			if cs := route.Spec.Components; cs != nil {
+			if cs := doc.Components; cs != nil {
 				if ref := cs.SecuritySchemes[ai.SecuritySchemeName]; ref != nil {
 					want = ref.Value
 				}
@@ -324,7 +431,7 @@ func runC07(c hx.Case) any {
 			return errors.New("denied")
 		}
 	}
-	in := &openapi3filter.RequestValidationInput{Request: req, PathParams: pathParams, Route: route, Options: opts}
+	in.Options = opts
 	if jbool(c, "optionsNil") {
 		in.Options = nil
 	}
@@ -367,8 +474,7 @@ func runC07(c hx.Case) any {
 	if err == nil {
 		kind = "ok"
 	}
-	return map[string]any{"ok": err == nil, "shape": shape, "parts": parts, "authLog": authLog, "route": routeUsed, "doc": docUsed,
-		"kind": kind + "/doc:" + docUsed + "/route:" + routeUsed}
+	return map[string]any{"ok": err == nil, "shape": shape, "parts": parts, "authLog": authLog, "kind": kind}
 }
 
 func sameStrs(a, b []string, ordered bool) bool {
@@ -426,26 +532,60 @@ func cmpC07(c hx.Case, impl any, reply map[string]any) hx.Verdict {
 	if e, bad := im["routeError"]; bad {
 		return hx.Verdict{IM: false, IS: true, Detail: "the runner could not route the request: " + fmt.Sprint(e)}
 	}
-	iparts, mparts := toStrs(im["parts"]), toStrs(model["parts"])
-	if jbool(im, "ok") != jbool(model, "ok") || jstr(im, "shape") != jstr(model, "shape") || !sameStrs(iparts, mparts, true) ||
-		!sameStrs(toStrs(im["authLog"]), toStrs(model["authLog"]), true) {
-		v.IM = false
-		v.Detail = fmt.Sprintf("impl %v vs model %v", hx.Canon(im), hx.Canon(model))
-	}
 	if b, ok := model["composeAgree"].(bool); ok && !b {
 		v.IM = false
 		v.Detail = "composition: the parameter decision of the C05 model or the body verdict of the C06 model differs from the bit the case's facts give"
 	}
+	c07CmpOne(&v, "", jbool(c, "multi") && !jbool(c, "optionsNil"), im, model, spec)
+	// every later call of the history against the model's / the specification's entry for it
+	ih, mh, sh := jlist(im["hist"]), jlist(model["hist"]), jlist(spec["hist"])
+	steps := jlist(c["history"])
+	if len(ih) != len(steps) || len(mh) != len(steps) || len(sh) != len(steps) {
+		v.IM = false
+		v.Detail = fmt.Sprintf("history: %d steps, %d observed, %d modelled, %d specified", len(steps), len(ih), len(mh), len(sh))
+		return v
+	}
+	for i, st := range steps {
+		sm, _ := st.(map[string]any)
+		multi, optionsNil := jbool(c, "multi"), jbool(c, "optionsNil")
+		if x, ok := sm["multi"].(bool); ok {
+			multi = x
+		}
+		if x, ok := sm["optionsNil"].(bool); ok {
+			optionsNil = x
+		}
+		io, _ := ih[i].(map[string]any)
+		mo, _ := mh[i].(map[string]any)
+		so, _ := sh[i].(map[string]any)
+		if io == nil || mo == nil || so == nil {
+			v.IM = false
+			v.Detail = fmt.Sprintf("history call %d: missing observation", i+2)
+			continue
+		}
+		c07CmpOne(&v, fmt.Sprintf("history call %d (%s, options %s): ", i+2, jstr(sm, "reuse"), jstr(sm, "optsHow")), multi && !optionsNil, io, mo, so)
+	}
+	return v
+}
+
+// c07CmpOne compares one call: result shape, failing parts in order and callback log with the model; verdict and
+// failing parts with the specification.
+func c07CmpOne(v *hx.Verdict, where string, multi bool, im, model, spec map[string]any) {
+	iparts, mparts := toStrs(im["parts"]), toStrs(model["parts"])
+	if jbool(im, "ok") != jbool(model, "ok") || jstr(im, "shape") != jstr(model, "shape") || !sameStrs(iparts, mparts, true) ||
+		!sameStrs(toStrs(im["authLog"]), toStrs(model["authLog"]), true) {
+		v.IM = false
+		v.Detail = where + fmt.Sprintf("impl %v vs model %v", hx.Canon(im), hx.Canon(model))
+	}
 	sfail := toStrs(spec["failing"])
 	if jbool(im, "ok") != jbool(spec, "accept") {
 		v.IS = false
-		v.Detail = fmt.Sprintf("verdict: impl ok=%v, spec accept=%v (spec failing parts %v)", jbool(im, "ok"), jbool(spec, "accept"), sfail)
+		v.Detail = where + fmt.Sprintf("verdict: impl ok=%v, spec accept=%v (spec failing parts %v)", jbool(im, "ok"), jbool(spec, "accept"), sfail)
 	} else if !jbool(im, "ok") {
-		if jbool(c, "multi") {
+		if multi {
 			// "the errors returned are exactly the failing parts": the same parts, as sets
 			if !sameStrs(c07Uniq(iparts), c07Uniq(sfail), true) {
 				v.IS = false
-				v.Detail = fmt.Sprintf("multi-error parts: impl %v, spec %v", iparts, sfail)
+				v.Detail = where + fmt.Sprintf("multi-error parts: impl %v, spec %v", iparts, sfail)
 			}
 		} else {
 			okp := len(iparts) == 1
@@ -459,11 +599,10 @@ func cmpC07(c hx.Case, impl any, reply map[string]any) hx.Verdict {
 			}
 			if !okp {
 				v.IS = false
-				v.Detail = fmt.Sprintf("fail-first part: impl %v not a single member of spec %v", iparts, sfail)
+				v.Detail = where + fmt.Sprintf("fail-first part: impl %v not a single member of spec %v", iparts, sfail)
 			}
 		}
 	}
-	return v
 }
 
 // ---------------------------------------------------------------- generator
@@ -546,6 +685,20 @@ var c07Builds = func() []map[string]any {
 }()
 
 var c07BodyKinds = []string{"nil", "nobody", "empty"}
+
+// fields of openapi3filter.Options that request orchestration does not read
+var c07OtherOpts = []string{"ExcludeResponseBody", "ExcludeReadOnlyValidations", "ExcludeWriteOnlyValidations", "IncludeResponseStatus",
+	"SkipSettingDefaults", "CustomSchemaErrorFunc"}
+
+func c07Other(mask int) []any {
+	out := []any{}
+	for i, n := range c07OtherOpts {
+		if mask&(1<<i) != 0 {
+			out = append(out, n)
+		}
+	}
+	return out
+}
 
 func genC07(ctx *hx.Ctx, emit func(hx.Case)) {
 	declared := []any{"a", "b", "c"}
@@ -647,7 +800,7 @@ func genC07(ctx *hx.Ctx, emit func(hx.Case)) {
 					}
 					out(hx.Case{"opParams": lay[0], "pathParams": lay[1], "opSecurity": nil, "docSecurity": c07SecShapes[3],
 						"accepted": acc, "body": body, "excludeBody": o&1 != 0, "excludeQuery": o&2 != 0, "multi": o&4 != 0,
-						"authReadsBody": (li+o+bi)%2 == 1})
+						"authReadsBody": (li+o+bi)%2 == 1, "noise": (li+o+bi+sec)%2 == 0, "otherOpts": c07Other((li*7 + o*5 + bi*3 + sec) % 64)})
 				}
 			}
 		}
@@ -678,6 +831,76 @@ func genC07(ctx *hx.Ctx, emit func(hx.Case)) {
 					"authNil": true, "optionsNil": true, "body": c07Bodies[li%len(c07Bodies)], "excludeBody": false, "excludeQuery": false,
 					"multi": false, "build": build})
 			}
+		}
+	}
+	// (5) histories: the case's own call, then further calls that reuse the same RequestValidationInput, a new input
+	// around the same *http.Request, or a new request against the same document / route / router — each with its own
+	// Options (a new struct, the fields of the old struct rewritten in place, or nil)
+	optStep := func(reuse, how string, o int, acc []any, extra map[string]any) map[string]any {
+		st := map[string]any{"reuse": reuse, "optsHow": how, "excludeBody": o&1 != 0, "excludeQuery": o&2 != 0, "multi": o&4 != 0,
+			"accepted": acc, "authNil": false, "optionsNil": false}
+		for k, v := range extra {
+			st[k] = v
+		}
+		return st
+	}
+	reuses := []string{"input", "request", "doc"}
+	hows := []string{"new", "mutate"}
+	for li, lay := range c07ParamLayouts {
+		for bi, body := range c07Bodies {
+			for ri, reuse := range reuses {
+				for hi, how := range hows {
+					if !ctx.Thorough() && (li+bi+ri+hi)%2 == 1 {
+						continue
+					}
+					o := (li + bi + ri) % 8
+					yes, no := []any{"a()"}, []any{}
+					hist := []any{
+						optStep(reuse, how, o^7, no, nil),                                         // every flag flipped, the callback now refuses
+						optStep(reuse, how, (o+3)%8, yes, map[string]any{"optionsNil": (li+bi)%2 == 0}), // nil Options in the middle of a history
+						optStep(reuse, how, o, yes, map[string]any{"authNil": hi == 1 && bi%2 == 0}),  // back to the first call's options
+						optStep(reuses[(ri+1)%3], hows[(hi+1)%2], o, yes, nil),                     // the first call again, reached another way
+					}
+					out(hx.Case{"opParams": lay[0], "pathParams": lay[1], "opSecurity": nil, "docSecurity": c07SecShapes[3],
+						"accepted": yes, "body": body, "excludeBody": o&1 != 0, "excludeQuery": o&2 != 0, "multi": o&4 != 0,
+						"authReadsBody": (li+bi+hi)%2 == 0, "history": hist})
+				}
+			}
+		}
+	}
+	// two operations of one path item: the case's operation, then its sibling (no parameters of its own: every
+	// path-level parameter is in effect), the first again, the sibling again
+	for li, lay := range c07ParamLayouts {
+		for o := 0; o < 8; o++ {
+			yes := []any{"a()"}
+			hist := []any{
+				optStep("sibling", hows[o%2], o, yes, nil),
+				optStep("doc", hows[(o+1)%2], o, yes, nil),
+				optStep("sibling", "new", o^4, yes, nil),
+				optStep("input", "mutate", o^3, yes, nil),
+			}
+			out(hx.Case{"opParams": lay[0], "pathParams": lay[1], "opSecurity": c07SecShapes[(li+o)%4], "docSecurity": c07SecShapes[3],
+				"accepted": yes, "body": c07Bodies[(li+o)%len(c07Bodies)], "excludeBody": o&1 != 0, "excludeQuery": o&2 != 0, "multi": o&4 != 0,
+				"authReadsBody": (li+o)%2 == 0, "history": hist})
+		}
+	}
+	for oi, opSec := range c07SecShapes {
+		for di, docSec := range c07SecShapes {
+			if docSec == nil {
+				continue
+			}
+			reuse, how := reuses[(oi+di)%3], hows[(oi+di/3)%2]
+			lay := c07ParamLayouts[(oi+2*di)%len(c07ParamLayouts)]
+			hist := []any{
+				optStep(reuse, how, 4, subset(63), nil),
+				optStep(reuse, how, 0, subset(0), nil),
+				optStep(reuse, how, 4, subset(0), map[string]any{"optionsNil": true}),
+				optStep(reuse, how, 4, subset(1|8), nil),
+				optStep(reuse, how, 0, subset(63), map[string]any{"authNil": true}),
+			}
+			out(hx.Case{"opParams": lay[0], "pathParams": lay[1], "opSecurity": opSec, "docSecurity": docSec, "accepted": subset(2 | 4 | 16),
+				"body": c07Bodies[(oi+di)%len(c07Bodies)], "excludeBody": false, "excludeQuery": false, "multi": (oi+di)%2 == 0,
+				"authNil": oi%4 == 0, "authReadsBody": di%2 == 0, "history": hist})
 		}
 	}
 	// (4) random stream
@@ -761,6 +984,27 @@ func genC07(ctx *hx.Ctx, emit func(hx.Case)) {
 		if r.Chance(8) {
 			c["authNil"] = true
 		}
+		if r.Chance(30) {
+			c["noise"] = true
+		}
+		if r.Chance(40) {
+			c["otherOpts"] = c07Other(r.Intn(64))
+		}
+		if r.Chance(25) {
+			hist := []any{}
+			for k, m := 0, 1+r.Intn(3); k < m; k++ {
+				a2 := []any{}
+				for _, key := range c07Uniq(keys) {
+					if r.Chance(60) {
+						a2 = append(a2, key)
+					}
+				}
+				hist = append(hist, map[string]any{"reuse": hx.Pick(r, []string{"input", "request", "doc", "sibling"}), "optsHow": hx.Pick(r, []string{"new", "mutate"}),
+					"excludeBody": r.Chance(40), "excludeQuery": r.Chance(40), "multi": r.Bool(), "accepted": a2,
+					"authNil": r.Chance(10), "optionsNil": r.Chance(10), "authReadsBody": r.Chance(40), "otherOpts": c07Other(r.Intn(64))})
+			}
+			c["history"] = hist
+		}
 		if r.Chance(10) {
 			how := hx.Pick(r, []string{"noComponents", "noSchemes", "nilValue"})
 			c["undeclaredHow"] = how
@@ -793,7 +1037,7 @@ func dropEach(l []any) [][]any {
 
 func shrinkC07(c hx.Case) []hx.Case {
 	var out []hx.Case
-	for _, k := range []string{"opParams", "pathParams", "docSecurity", "opSecurity", "accepted"} {
+	for _, k := range []string{"history", "otherOpts", "opParams", "pathParams", "docSecurity", "opSecurity", "accepted"} {
 		if l, ok := c[k].([]any); ok {
 			for _, n := range dropEach(l) {
 				x := cloneCase(c)
@@ -815,7 +1059,7 @@ func shrinkC07(c hx.Case) []hx.Case {
 			}
 		}
 	}
-	for _, k := range []string{"excludeBody", "excludeQuery", "multi", "authReadsBody", "optionsNil"} {
+	for _, k := range []string{"excludeBody", "excludeQuery", "multi", "authReadsBody", "optionsNil", "noise"} {
 		if jbool(c, k) {
 			x := cloneCase(c)
 			x[k] = false
